@@ -30,7 +30,7 @@ def print_tm(g, opts=None, pkgroot="vgen"):
             v = '"%s"' % v
         lines.append("%s = %s" % (k, v))
     lines += ["", ":: lexer", ""]
-    for t in g["terms"]:
+    for t in list(g["terms"]) + list(g.get("extra_terms", "")):
         lines.append("%s: /%s/" % (t, g.get("patterns", {}).get(t, t)))
     if g.get("uses_error"):
         lines.append("error:")
@@ -146,3 +146,97 @@ def data_file(g, meta, pkgname):
     else:
         lines.append("func verifInit(p *Parser) {\n\tverifEvents = nil\n\tp.Init()\n}")
     return "\n".join(lines) + "\n"
+
+
+def shim_file(meta, pkgname, pkgdir):
+    """In-package export shim for a generated parser: one step of the table decode exactly as the parser template spells
+    it (action for a terminal, goto for any symbol), rule data and entry/final states."""
+    import re
+    src = open(os.path.join(pkgdir, "parser.go")).read()
+    m = re.search(r"func gotoState\(state (int\d*), symbol int32\) (int\d*)", src)
+    st = m.group(1)
+    L = ["package " + pkgname, "", "// export shim printed by vlib/grammars.py (scratch code, not part of the repository)", ""]
+    L.append("func VerifNumStates() int { return len(tmAction) }")
+    L.append("func VerifNumRules() int { return len(tmRuleLen) }")
+    L.append("func VerifRuleLen(r int) int { return int(tmRuleLen[r]) }")
+    L.append("func VerifRuleSym(r int) int { return int(tmRuleSymbol[r]) }")
+    if meta.get("has_listener"):
+        L.append("func VerifRuleType(r int) int { return int(tmRuleType[r]) }")
+    else:
+        L.append("func VerifRuleType(r int) int { return 0 }")
+    L.append("func VerifNumTokens() int { return %d }" % meta["num_tokens"])
+    L.append("func VerifNumSymbols() int { return %d }" % len(meta["syms"]))
+    L.append("func VerifFinal(input int) int { return [...]int{%s}[input] }" % ", ".join(map(str, meta["final_states"])))
+    L.append("func VerifNumInputs() int { return %d }" % len(meta["final_states"]))
+    L.append("func VerifGoto(state int, sym int32) int { return int(gotoState(%s(state), sym)) }" % st)
+    if meta.get("has_lalr") and not meta["optimized"]:
+        L.append("""// VerifExplicitError: the lookahead table lists an error for (state, sym) (a %nonassoc conflict resolution).
+func VerifExplicitError(state int, sym int32) bool {
+	action := tmAction[state]
+	if action >= -2 {
+		return false
+	}
+	for a := -action - 3; tmLalr[a] >= 0; a += 2 {
+		if tmLalr[a] == sym {
+			return tmLalr[a+1] == -2
+		}
+	}
+	return false
+}""")
+    else:
+        L.append("func VerifExplicitError(state int, sym int32) bool { return false }")
+    L.append("")
+    L.append("// VerifStep decodes the action of (state, terminal): kind 0 = reduce arg, 1 = shift to arg, 2 = error.")
+    if meta["optimized"]:
+        L.append("""func VerifStep(state int, sym int32) (kind, arg int) {
+	action := tmAction[state]
+	if action > tmActionBase {
+		pos := action + sym
+		if pos >= 0 && pos < tmTableLen && int32(tmCheck[pos]) == sym {
+			action = int32(tmTable[pos])
+		} else {
+			action = tmDefAct[state]
+		}
+	} else {
+		action = tmDefAct[state]
+	}
+	if action >= 0 {
+		return 0, int(action)
+	}
+	if action < -1 {
+		return 1, int(-2 - action)
+	}
+	return 2, 0
+}""")
+    else:
+        lal = "\tif action < -2 {\n\t\taction = lalr(action, sym)\n\t}\n" if meta.get("has_lalr") else ""
+        L.append("""func VerifStep(state int, sym int32) (kind, arg int) {
+	action := tmAction[state]
+%s	if action >= 0 {
+		return 0, int(action)
+	}
+	if action == -1 {
+		if t := gotoState(%s(state), sym); t >= 0 {
+			return 1, int(t)
+		}
+	}
+	return 2, 0
+}""" % (lal, st))
+    return "\n".join(L) + "\n"
+
+
+def pair_data_file(g, metaA, metaB, pkgname):
+    symid = {name: i for i, name in enumerate(metaA["syms"])}
+    terms = [symid[t] for t in g["terms"] if not g.get("input_terms") or t in g["input_terms"]]
+    L = ["package " + pkgname, "", "import (", '	A "vgen/%s"' % metaA["name"], '	B "vgen/%s"' % metaB["name"], ")", ""]
+    L.append("var verifTerms = []int32{%s}" % ", ".join(map(str, terms)))
+    for which, meta in (("A", metaA), ("B", metaB)):
+        user_inputs = [i for i in meta["inputs"] if not i["synthetic"]]
+        multi = len(user_inputs) > 1
+        cases = []
+        for k, (nt, noeoi) in enumerate(g["inputs"]):
+            fn = "Parse" + (meta["sym_ids"][symid[nt]] if multi else "")
+            cases.append("\tcase %d:\n\t\treturn p.%s(l)" % (k, fn))
+        L.append("func verifParse%s(p *%s.Parser, l *%s.Lexer, input int) error {\n\tswitch input {\n%s\n\t}\n\tpanic(\"bad input index\")\n}" % (which, which, which, "\n".join(cases)))
+    L.append("func verifNonassocError(s int, x int32) bool { return A.VerifExplicitError(s, x) }")
+    return "\n".join(L) + "\n"
